@@ -66,8 +66,13 @@ def mutate(v, rng, cs):
     walk(v, lambda nv: box.__setitem__(0, nv))
     x, setter = rng.choice(nodes)
     if isinstance(x, Obj) and x and rng.random() < 0.7:
-        k = rng.randrange(5); i = rng.randrange(len(x))
-        if k == 0: del x[i]
+        k = rng.randrange(7 if cs else 5); i = rng.randrange(len(x))
+        if k >= 5:
+            # case-sensitive mode only: add a member whose key differs from an existing one only by ASCII case
+            nk = x[i][0].swapcase()
+            if nk != x[i][0] and nk not in [kk for kk, _ in x]: x.append((nk, copy.deepcopy(x[i][1]) if k == 5 else 7))
+            else: x.append(('new' + str(len(x)), 1))
+        elif k == 0: del x[i]
         elif k == 1: x.append(('new' + str(len(x)), 1))
         elif k == 2: x[i] = (x[i][0] + 'x', x[i][1])
         elif k == 3: x[i] = (x[i][0].swapcase() if x[i][0].swapcase() != x[i][0] else x[i][0] + 'Q', x[i][1])
